@@ -584,8 +584,17 @@ class World(object):
         st.dest = k
         st.reg_expected = k
         st.wset = {k}
+        st.extra['reg_val_before'] = reg_obj.val
         self.bump('register_write')
         return k
+
+    def register_written(self, st):
+        """After a register-writing step: the register received a new buffer iff the library really
+        stored into it (which register an operator uses is C08's subject, not modelled here; whether
+        its `val` attribute was rebound is observed, not what the buffers alias)."""
+        if st.dest is not None and 'reg_val_before' in st.extra and self.slots[st.dest].alive:
+            if self.slots[st.dest].obj.val is not st.extra['reg_val_before']:
+                self.fresh_buffer(st.dest)
 
     def plan_indexed(self, st, d, index):
         """Write set and write-through map of an indexed write on slot d."""
@@ -983,8 +992,7 @@ class World(object):
                    'floordiv': np.floor_divide, 'mod': np.mod}[f]
             x = npf(ao, bv, **kwargs)
         k = self.finish_new(st, x, origin='arith')
-        if st.dest is not None and k == st.dest:
-            self.fresh_buffer(k)
+        self.register_written(st)
 
     def op_bitwise(self, st):
         op = st.op
@@ -1111,8 +1119,7 @@ class World(object):
             else:
                 x = getattr(fxf, fname)(ao, axis=axis, **kwargs)
         k = self.finish_new(st, x, origin='reduce')
-        if st.dest is not None and k == st.dest:
-            self.fresh_buffer(k)
+        self.register_written(st)
 
     def op_npfunc(self, st):
         """A NumPy function fxpmath does not implement itself (goes through _wrapped_numpy_func)."""
@@ -1131,8 +1138,7 @@ class World(object):
              'floor': np.floor, 'sign': np.sign}[op['f']]
         x = f(self.obj(a))
         k = self.finish_new(st, x, origin='npfunc')
-        if st.dest is not None and k == st.dest:
-            self.fresh_buffer(k)
+        self.register_written(st)
 
     # shallow routes: generated only by the C02 profile (C20 does not list them as independent)
     def op_shallow(self, st):
